@@ -13,6 +13,9 @@ UNITS = {
     'P128': dict(SSO, new_block=128, gen_defs=['VERIF_NEW_POOL=8']),
     'P256': dict(SSO, new_block=256, gen_defs=['VERIF_NEW_POOL=8']),
     'X128': dict(wrap='wrap.cc', new_block=128, ir2c_flags=OPT),
+    # L: long results of string_printf. No string-length cut (results up to 4097 bytes leave the small-string buffer), inlined
+    # libstdc++, operator new = one fixed-size CBMC malloc block that holds the longest result + NUL.
+    'L': dict(wrap='wrap.cc', new_block=4224, ir2c_flags=OPT),
     # R: as P plus the reserve-ahead vector growth model vec_reserve.c (used where pieces are pushed conditionally)
     'R': dict(SSO, new_block=64, gen_defs=['VERIF_NEW_POOL=8', 'VERIF_VEC_CAP=8'], extra_c=['sso_bound.c', 'vec_reserve.c'],
               cuts=SSO['cuts'] + ['^_ZNKSt6vectorINSt7__cxx1112basic_stringIcSt11char_traitsIcESaIcEEESaIS5_EE12_M_check_lenEmPKc$', '^_ZNKSt6vectorIcSaIcEE12_M_check_lenEmPKc$',
@@ -89,9 +92,13 @@ def queries(tier):
             qs.append(Q('%s_len%d' % (nm, L), 'P64', 'h_misc.c', {'WHICH': which, 'LEN': L}, L + 2, nm + ' (std::string and const char* overloads) vs reference',
                         'len(s) == %d, all byte values, offset in [0, length]' % L))
     for L in ([0, 1, 3] if quick else [0, 1, 2, 3, 5, 8]):
-        qs.append(Q('printf_len%d' % L, 'P64', 'h_printf.c', {'LEN': L, 'FAIL': 0}, L + 2, 'string_printf wrapper logic around a contract vasprintf returning %d symbolic bytes' % L,
-                    'vasprintf result of %d bytes (any values incl. NUL)' % L, flags=FS + ['--memory-leak-check']))
-    qs.append(Q('printf_null', 'P64', 'h_printf.c', {'LEN': 1, 'FAIL': 1}, 3, 'vasprintf yields NULL => bad_alloc', 'vasprintf failure'))
+        qs.append(Q('printf_len%d' % L, 'P64', 'h_printf.c', {'LEN': L, 'FAIL': 0}, L + 10, 'string_printf wrapper logic around the contract vsnprintf/vasprintf producing %d symbolic bytes' % L,
+                    'formatted result of %d bytes (any values incl. NUL)' % L, flags=FS + ['--memory-leak-check']))
+    # boundary lengths around plausible internal buffer sizes (powers of two), unit L (no 15-byte cut)
+    for L in ([255, 256, 257] if quick else [15, 16, 17, 63, 64, 65, 127, 128, 129, 255, 256, 257, 511, 512, 513, 1023, 1024, 1025, 4095, 4096, 4097]):
+        qs.append(Q('printf_len%d' % L, 'L', 'h_printf.c', {'LEN': L, 'FAIL': 0}, L + 10, 'string_printf wrapper logic around the contract vsnprintf/vasprintf producing %d symbolic bytes' % L,
+                    'formatted result of %d bytes (any values incl. NUL), one symbolic checked position' % L, flags=FS + ['--memory-leak-check']))
+    qs.append(Q('printf_null', 'P64', 'h_printf.c', {'LEN': 1, 'FAIL': 1}, 11, 'vasprintf yields NULL => bad_alloc', 'vasprintf failure'))
     jc = [(0, 2, 0, 1), (1, 2, 0, 1), (1, 2, 2, 1), (2, 2, 0, 1), (2, 2, 1, 2), (2, 2, 2, 1), (3, 1, 0, 1)]
     if not quick:
         jc += [(3, 2, 0, 1), (3, 1, 1, 2), (3, 1, 2, 1)]  # 4 items: no verdict in 900 s
